@@ -195,9 +195,9 @@ def same_object(ctx):
 def default_delete_handlers(ctx):
     p = ctx.program
     u = ctx.unit('mutation._delete_autodiscover')
-    rets = [n for n in u.own_nodes() if isinstance(n, ast.Return)]
-    vals = [norm(r.value) for r in rets]
-    ctx.ob(vals == ['False', '_del_sequence_item', 'operator.delitem', 'delattr'], u, 'delete handler discovery: %s' % vals)
+    from .c11 import discovery_table
+    discovery_table(ctx, u, '__delitem__', {'none': 'False', 'attr': 'delattr', 'seq': '_del_sequence_item', 'item': 'operator.delitem'},
+                    '_UNASSIGNABLE_BASE_TYPES', 'delete')
     su = ctx.unit('mutation._del_sequence_item')
     st = [n for n in su.own_nodes() if isinstance(n, ast.Delete)]
     ok = len(st) == 1 and norm(st[0]) == 'del %s[int(%s)]' % tuple(su.params)
